@@ -280,7 +280,7 @@ def model_check_cache(ev, vd, tier, work):
     for label, over, cfgs, tmo in runs:
         cfg = mc_cfg(work, hashlib.sha1(label.encode()).hexdigest()[:8], over, cfgs)
         jobs.append((label, cfg, dict(workers=2, timeout=tmo, xmx="3g")))
-    nsim, depth = (32, 40) if tier == "quick" else (600, 50)      # per worker; measured: ~0.4 behaviours/s/worker at the real constants
+    nsim, depth = (32, 40) if tier == "quick" else (300, 50)      # per worker; measured: ~0.4 behaviours/s/worker at the real constants idle, a third of that loaded
     simw = 4 if tier == "quick" else 8
     simcfg = mc_cfg(work, "sim", dict(K=8, D=4, NG=16, BlkSizes="{1,2}", NegSizes="{1,3,5}", ByteLens="{1,2}", MaxW=4, MaxFaults=2,
                                       Toggle="TRUE", ZeroFail="TRUE"), "CfgAll", simulate=True)
